@@ -16,7 +16,7 @@ RULE = ("cases from rng(seed, 4, 0, i): connected-per-cluster graphs of R^2 and/
         "cond up to 1e6, measurement noise 10^U(-3,1); optimize() with default arguments or random tol in 10^U(-10,-2), max_iter in 1..20; every 3rd case then edits the problem in place (information replaced / scaled in place, measurement, a vertex, a fixed flag) and re-optimizes the same graph object. "
         "distinct = spec fingerprint; non-trivial = some free vertex is displaced by more than 1e-3 from the optimum initially and cond(H)<=1e10.")
 REQ = ["eval:optimum-reached", "eval:final-chi2-at-optimum", "class:landmark_edges", "class:parallel_edges", "class:far_initial_guess", "class:mixed_dimensions",
-       "class:illconditioned_information", "class:shared_pose_storage", "class:reoptimised_after_edits", "eval:optimum-reached-after-edits", "class:information_scales:per_edge", "class:information_scales:all_tiny", "class:edges_prebound_to_stale_vertices", "class:information_sparse:zero_rows_and_blocks", "class:information_sparse:offdiagonals_cancel_in_sum", "class:second_live_graph_over_the_same_objects"]
+       "class:illconditioned_information", "class:shared_pose_storage", "class:reoptimised_after_edits", "eval:optimum-reached-after-edits", "class:information_scales:per_edge", "class:information_scales:all_tiny", "class:edges_prebound_to_stale_vertices", "class:information_sparse:zero_rows_and_blocks", "class:information_sparse:offdiagonals_cancel_in_sum", "class:second_live_graph_over_the_same_objects", "class:first_vertex_fixed_only_by_the_argument_while_others_carry_flags"]
 PLAN = {
     "quick": {"cases": 1600, "soft_s": 60, "min_nontrivial": 400, "require": REQ},
     "thorough": {"cases": 80000, "soft_s": 1100, "min_nontrivial": 10000, "require": REQ},
@@ -55,11 +55,15 @@ def run_case(ctx, i, rng):
         g_second = M.Graph([g._edges[int(j)] for j in pe], [g._vertices[j] for j in pv])
         labels.add("second_live_graph_over_the_same_objects")
         case_extra = {"second_graph_vertex_order": pv}
+    # with fix_first_pose=True the first listed vertex is fixed by the call itself (it carries no flag beforehand unless the generator gave it one)
+    fixed_ids = {id(v) for v in g._vertices if v.fixed}
     if ffp:
-        g._vertices[0].fixed = True
+        fixed_ids.add(id(g._vertices[0]))
+        if not g._vertices[0].fixed and len(fixed_ids) > 1:
+            ctx.count("class:first_vertex_fixed_only_by_the_argument_while_others_carry_flags")
     x0 = M.snapshot_poses(g)
     H, b, chi0, idx, n = M.assemble(g, "ref")
-    free = M.free_mask(g, n, idx)
+    free = M.free_mask(g, n, idx, fixed_ids)
     dx, c = M.reduced_step(H, b, free)
     if dx is None or c > (1e13 if any(l.startswith("information_scales") for l in labels) else 1e10):
         raise Skip("cond(H_reduced) too large for a meaningful comparison")
